@@ -110,6 +110,43 @@ static void engine(void)
                                             { EC_BACKEND_FLAT_XOR_HD, 10, 5, 4 }, { EC_BACKEND_FLAT_XOR_HD, 12, 6, 4 }, { EC_BACKEND_FLAT_XOR_HD, 15, 6, 3 } };
       for (int i = 0; i < (thorough ? 10 : 7); i++) cfgs[ncfg++] = extra[i]; }
     int triples_n = (int)vh_opt("triples_n", thorough ? 16 : 6);
+    /* init failures that the back ends report themselves (not injected): unsupported flat-XOR shapes, word sizes the null and
+     * isa-l back ends refuse. Same demands: negative code, nothing left allocated, registry unchanged, and a following
+     * create / encode / decode / destroy of a good instance of the same back end behaves normally. */
+    if (vh_group_begin("X/genuine-init-failures")) {
+        static const struct { int be, k, m, hd, w; } bad[] = {
+            { EC_BACKEND_FLAT_XOR_HD, 4, 4, 3, 0 }, { EC_BACKEND_FLAT_XOR_HD, 12, 5, 4, 0 }, { EC_BACKEND_FLAT_XOR_HD, 3, 3, 4, 0 }, { EC_BACKEND_FLAT_XOR_HD, 21, 6, 4, 0 },
+            { EC_BACKEND_FLAT_XOR_HD, 16, 6, 3, 0 }, { EC_BACKEND_FLAT_XOR_HD, 5, 5, 2, 0 }, { EC_BACKEND_NULL, 2, 1, 1, 4 }, { EC_BACKEND_NULL, 2, 1, 1, 7 },
+            { EC_BACKEND_ISA_L_RS_VAND, 2, 1, 1, 4 }, { EC_BACKEND_ISA_L_RS_CAUCHY, 3, 2, 2, 7 }, { EC_BACKEND_ISA_L_RS_VAND, 20, 12, 12, 4 } };
+        static const struct shape good[] = { { EC_BACKEND_FLAT_XOR_HD, 3, 3, 3 }, { EC_BACKEND_NULL, 2, 1, 1 }, { EC_BACKEND_ISA_L_RS_VAND, 2, 1, 1 }, { EC_BACKEND_ISA_L_RS_CAUCHY, 3, 2, 2 } };
+        for (int rep = 1; rep <= 3; rep++) for (unsigned b = 0; b < sizeof bad / sizeof bad[0]; b++) {
+            if (!vh_case_begin("%s/k%dm%dhd%dw%d/x%d", be_name(bad[b].be), bad[b].k, bad[b].m, bad[b].hd, bad[b].w, rep)) continue;
+            vh_nontrivial();
+            long c0 = ledger_count(), b0 = ledger_bytes(); int r0 = registry_len();
+            for (int i = 0; i < rep; i++) {
+                struct ec_args a; memset(&a, 0, sizeof a); a.k = bad[b].k; a.m = bad[b].m; a.hd = bad[b].hd; a.w = bad[b].w; a.ct = CHKSUM_CRC32;
+                vh_op("liberasurecode_instance_create"); vh_transitions(1);
+                int d = liberasurecode_instance_create(bad[b].be, &a);
+                if (d >= 0) { vh_violation("backend-failure-ignored", "create returned %d although the back end's init refuses this configuration", d); if (d > 0) liberasurecode_instance_destroy(d); }
+            }
+            if (ledger_count() != c0 || ledger_bytes() != b0) { char dd[160]; ledger_dump(dd, sizeof dd); vh_violation("half-done", "%d failed create(s) left %ld blocks / %ld bytes allocated (live sizes %s)", rep, ledger_count() - c0, ledger_bytes() - b0, dd); }
+            if (registry_len() != r0) vh_violation("half-done", "failed create left an instance in the registry");
+            for (unsigned g = 0; g < sizeof good / sizeof good[0]; g++) {
+                if (good[g].be != bad[b].be) continue;
+                struct stripe st; uint64_t a2 = (uint64_t)good[g].k * word_bytes(good[g].be);
+                if (stripe_open(&st, good[g], CHKSUM_CRC32, 2 * a2 + 3, PAT_RAMP, NULL)) vh_violation("next-call-failed", "a good %s instance cannot be created / encoded after the failed create", be_name(good[g].be));
+                else {
+                    char **arr = (char **)(st.gptr.p + st.gptr.len) - st.n; int nf = 0; for (int i = 1; i < st.n; i++) arr[nf++] = (char *)frag_at(&st, GP_END, i);
+                    char *out = NULL; uint64_t ol = 0; vh_op("liberasurecode_decode"); vh_transitions(1);
+                    int rc = liberasurecode_decode(st.desc, arr, nf, st.flen, 0, &out, &ol);
+                    if (rc != 0 || (good[g].be != EC_BACKEND_NULL && (ol != st.len || memcmp(out, st.data, st.len)))) vh_violation("next-call-failed", "decode on a good %s instance after the failed create returned %d%s", be_name(good[g].be), rc, rc == 0 ? " with wrong data" : "");
+                    if (rc == 0) liberasurecode_decode_cleanup(st.desc, out);
+                }
+                stripe_close(&st, 1);
+            }
+        }
+        vh_group_end();
+    }
     for (int ci = 0; ci < ncfg; ci++) {
         struct shape sh = cfgs[ci];
         if (!vh_group_begin("X/%s/k%dm%dhd%d", be_name(sh.be), sh.k, sh.m, sh.hd)) continue;
